@@ -402,6 +402,11 @@ func runBatch(b batch, bi int) {
 		sy = "1"
 	}
 	for cur < b.to && !abortRun.Load() {
+		if selfTestFailed.Load() >= 5 && run.Get("net.selftests_passed") == 0 {
+			// nothing works: do not wait for every batch to fail the same way
+			run.Count("net.scripts_not_run(self-test failed)", int64(b.to-cur))
+			return
+		}
 		attempt++
 		j := filepath.Join(tmp, fmt.Sprintf("b%d-%d.j", bi, attempt))
 		r := filepath.Join(tmp, fmt.Sprintf("b%d-%d.r", bi, attempt))
@@ -419,6 +424,7 @@ func runBatch(b batch, bi int) {
 					preOK = st.OK
 					if !st.OK {
 						run.Inconclusive("batch %d [%d,%d): benign self-test failed, batch not judged: %v", bi, cur, b.to, st.Problems)
+						selfTestFailed.Add(1)
 					} else {
 						run.Count("net.selftests_passed", 1)
 					}
@@ -451,6 +457,7 @@ func runBatch(b batch, bi int) {
 		if !preOK && res.ExitCode != exitOK {
 			run.Count("net.scripts_not_run(self-test failed)", int64(b.to-cur))
 			if len(lines) == 0 {
+				selfTestFailed.Add(1)
 				run.Inconclusive("batch %d [%d,%d): child died before the self-test finished (exit %d %s): %s", bi, cur, b.to, res.ExitCode, res.Signal, tail(logs, 600))
 			}
 			run.Count("net.batches_inconclusive", 1)
@@ -500,6 +507,7 @@ func runBlockedOnMutex(stacks string) bool {
 	return false
 }
 
+var selfTestFailed atomic.Int32
 var hangSuspects atomic.Int32
 var abortRun atomic.Bool
 
@@ -563,13 +571,17 @@ func judgeDead(logs string, w *witness, jl json.RawMessage, synced bool, how str
 		run.Count("net.harness_suspect", 1)
 		return
 	}
-	if replayAlone {
+	if replayAlone && hangSuspects.Load() < 20 {
 		st, _, _ := runOne(w.Seed, w.Script, synced, "dead")
 		w.Alone = st
 	}
 	var je journalEntry
 	json.Unmarshal(jl, &je)
 	run.Count("net.child_deaths", 1)
+	if n := hangSuspects.Add(1); n > 60 && run.Violations() > 0 && !abortRun.Load() {
+		abortRun.Store(true)
+		run.Inconclusive("more than 60 scripts killed the node or ran into the watchdog and violations are already established: the remaining batches are not run")
+	}
 	run.Violation(kind+"/"+where(frames),
 		fmt.Sprintf("node process died (%s) while script %d was being processed: %s; stack: %s; messages: %v", how, w.Script, msg, strings.Join(frames, " <- "), je.Cmds), w)
 }
@@ -659,6 +671,10 @@ func account(r *scriptResult) {
 	if r.Banned {
 		run.Count("net.peers_banned", 1)
 	}
+	if r.Idx >= 0 && r.Idx%997 == 3 && run.WantSample() {
+		run.Sample(map[string]interface{}{"script": r.Idx, "kind": r.Kind, "messages": r.Cmds, "dispatched": r.Consumed, "peer_banned": r.Banned,
+			"misbehave_score": r.Misbehave, "node_sent": r.Sent, "micros": r.Micros})
+	}
 	if r.EOF {
 		run.Count("net.scripts_fully_consumed", 1)
 	}
@@ -732,6 +748,15 @@ func main() {
 				os.RemoveAll(tmp)
 				os.Exit(0)
 			}
+		case "--range":
+			if i+2 < len(os.Args) {
+				var a, b int
+				fmt.Sscan(os.Args[i+1], &a)
+				fmt.Sscan(os.Args[i+2], &b)
+				runBatch(batch{a, b, true}, 0)
+				run.Count("cases", run.Get("net.messages_dispatched"))
+				run.Finish("scripts of a range re-run in one child", "cases", "nontrivial", 1)
+			}
 		case "--libcase":
 			if i+1 < len(os.Args) {
 				var n int
@@ -749,8 +774,8 @@ func main() {
 		}
 	}
 
-	nScripts := run.N(6500, 400000)
-	nLib := run.N(80000, 20000000)
+	nScripts := run.N(6500, 150000)
+	nLib := run.N(80000, 4000000)
 	var wg sync.WaitGroup
 	wg.Add(2)
 	only := os.Getenv("C18_ONLY") // debugging aid: "net" or "lib"
